@@ -13,7 +13,7 @@ from .. import core, real, progs, tickrec, values, vmops
 LEAN_MODULE = 'QbeeModel.Props.C07'
 REQUIRED = ['tick_interrupt', 'tick_interrupt_clears', 'unarmed_trap_halts', 'tick_total', 'division_by_zero_traps',
             'float_division_by_zero_traps', 'overflow_traps', 'mk_no_host', 'int_arith_no_host', 'unop_numeric_no_host',
-            'conv_no_host']
+            'conv_no_host', 'unop_no_host', 'cmp_mismatch_traps']
 
 # statements that fail on purpose, with the trap the property prescribes
 FAILING = [
@@ -187,8 +187,32 @@ def run(chk):
                     _, cls, site = (res.split() + [''])[:3]
                     chk.finding(f'C07 host {cls} in {site} ({name})', f'instruction {name} on operands {list(zip(sig, map(repr, vals)))}',
                                 {'kind': 'instr', 'name': name, 'sig': list(sig), 'vals': [repr(v) for v in vals]})
+    # ... and on operands of the WRONG kind (reachable only through another defect, e.g. a clobbered cell): the machine's
+    # own type checks must answer with a trap, and reporting that trap must not raise either
+    nill = 0
+    for name, sigs in sorted(vmops.SIGS.items()):
+        for sig in sigs:
+            for pos in range(len(sig)):
+                for wrong in 'ilsdt':
+                    if wrong == sig[pos]:
+                        continue
+                    sg = sig[:pos] + (wrong,) + sig[pos + 1:]
+                    vals = tuple(vmops.gen_cell(rng, k)[1] for k in sg)
+                    res = vmops.tick_instr(name, list(zip(sg, vals)))
+                    nill += 1
+                    if res.startswith('host'):
+                        _, cls, site = (res.split() + [''])[:3]
+                        chk.finding(f'C07 host {cls} in {site} ({name}, ill-typed operand)', f'instruction {name} on operands {list(zip(sg, map(repr, vals)))}',
+                                    {'kind': 'instr', 'name': name, 'sig': list(sg), 'vals': [repr(v) for v in vals]})
+    for probe in vmops.frame_probes():
+        res = vmops.tick_frame_instr(*probe)
+        nill += 1
+        if res.startswith('host'):
+            _, cls, site = (res.split() + [''])[:3]
+            chk.finding(f'C07 host {cls} in {site} ({probe[0]}, ill-typed cell)', f'instruction {probe[0]} {probe[1]} on a frame holding {probe[2]!r}',
+                        {'kind': 'frame-instr', 'probe': [probe[0], probe[1], list(probe[2])]})
     chk.samples += [{'request': reqs[i], 'real': exp[i]} for i in (0, len(reqs) // 2, len(reqs) - 1) if reqs]
-    chk.cov['input_distribution'] = {'programs': len(tasks), 'interrupt_runs': nirq, 'ticks_corresponded': len(reqs),
+    chk.cov['input_distribution'] = {'programs': len(tasks), 'interrupt_runs': nirq, 'ticks_corresponded': len(reqs), 'ill_typed_single_instruction_ticks': nill,
                                      'outcomes': outcomes, 'host_exceptions': hosts, 'trap_class_cases': ncls,
                                      'single_instruction_ticks': ninstr, 'single_instruction_outcomes': kinds}
     return chk.finish(
